@@ -517,7 +517,7 @@ class Rooms(Combinator[RoomsType]):
                 if not isinstance(p, tuple) or len(p) != 2:
                     raise ValueError("Rooms can serialize only List[List[Tuple[int, int]]]")
                 y, x = p
-                if not 0 <= y < height and 0 <= x < width:
+                if not (0 <= y < height and 0 <= x < width):
                     raise ValueError(f"Cell position out of bounds: ({y}, {x})")
                 if room_id[y][x] != -1:
                     raise ValueError(f"Cell ({y}, {x}) belongs to multiple rooms")
